@@ -235,3 +235,20 @@ for mode in (None, MM.IMMEDIATE, MM.IGNORE, MM.READBACK, MM.SPLIT_WORDS):
 
                 c.setup = _cfg_setup
                 _cfg.cases.append(c)
+
+
+# ---- _list_rol: byte lane order of an unaligned SPLIT_WORDS read -----------------------------------------------------------------
+# An unaligned read at byte offset `off` returns, as byte j (counted from the least significant byte), lane (off + j) mod n
+# (each lane already addressed with the right word, see rddata in _cohdlstd_impl_read).  concat() takes the MOST significant
+# piece first, so _list_rol(lanes, off) is the list [lane (off + n - 1) mod n, ..., lane (off + 1) mod n, lane off].
+def rol_spec(sx, inp, roll):
+    n = len(inp)
+    return [inp[(roll + n - 1 - k) % n] for k in range(n)]
+
+
+con = contract(f"{MOD}:_list_rol", PROPS)
+for n in (1, 2, 4, 8):
+    for roll in range(n):
+        c = Case(f"{n}-lanes,offset-{roll}", [Built([], (lambda k: lambda env: [f"lane{i}" for i in range(k)])(n), lambda a: "<lanes>", lambda a: None), Built([], (lambda r: lambda env: r)(roll), lambda a: str(roll), lambda a: None)], rol_spec)
+        c.native = False
+        con.cases.append(c)
